@@ -102,7 +102,7 @@ def match(exp, obs, step=None, rec=None, prev=None):
     for k, v in exp.items():
         if k not in obs:
             return "missing observation %r" % k
-        if k in ("d", "vals", "arr", "min", "max") and v == [] and exp.get("ret", "value") in ("value", "ok") and exp.get("n", 1) != 0:
+        if k in ("d", "vals", "arr", "sib", "min", "max") and v == [] and (isinstance(exp.get("ret"), list) or exp.get("ret", "value") in ("value", "ok") or k in ("arr", "sib")) and (exp.get("n", 1) != 0 or k in ("arr", "sib")):
             continue
         if obs[k] != v:
             return "%s: expected %s, observed %s" % (k, json.dumps(v)[:200], json.dumps(obs[k])[:200])
@@ -112,8 +112,8 @@ def match(exp, obs, step=None, rec=None, prev=None):
 def unpredicted(beh):
     for st in beh:
         e = st.get("exp") or {}
-        if e.get("ret") in ("value", "ok") and e.get("n", 1) != 0:
-            if any(k in e and e[k] == [] for k in ("vals", "arr", "min")):
+        if (isinstance(e.get("ret"), list) or e.get("ret") in ("value", "ok", "refused")) and (e.get("n", 1) != 0 or st["a"] == "prepare"):
+            if any(k in e and e[k] == [] for k in (("arr",) if st["a"] == "prepare" and e.get("n", 1) == 0 else ("vals", "arr", "min"))) and not (st["a"] == "vfile" and sum((st.get("arg") or {}).get("rows") or [0]) == 0):
                 return True
             if e.get("ret") == "value" and e.get("d") == [] and (st.get("arg") or {}).get("dest", 1) == 1 and (st.get("arg") or {}).get("type", 100) != 0:
                 return True
@@ -146,10 +146,13 @@ def signature(beh, i, rec, why):
             if k not in obs:
                 what = "%s=missing" % k
                 break
-            if k in ("d", "vals", "arr", "min", "max") and v == []:
+            if k in ("d", "vals", "arr", "sib", "min", "max") and v == []:
                 continue
             if obs.get(k) != v:
-                what = "%s=%s" % (k, obs.get(k) if k in ("ret", "how", "n", "idx", "ns", "at") else "differs")
+                shown = obs.get(k)
+                if isinstance(shown, list):
+                    shown = "+".join(str(x) for x in shown)
+                what = "%s=%s" % (k, shown if k in ("ret", "how", "n", "idx", "ns", "at") else "differs")
                 break
     else:
         what = "ret=%s" % obs.get("ret")
@@ -281,7 +284,9 @@ def consumer_calls(rng, s, drv, n):
         elif op == "rangeset":
             calls.append({"a": "rangeset", "arg": {"i": 1}})
         elif op == "prepare":
-            if rng.random() < 0.5:
+            if rng.random() < 0.25:
+                calls.append({"a": "pshare", "arg": {"x": 0}})
+            elif rng.random() < 0.5:
                 calls.append({"a": "prepare", "arg": {"len": rng.choice([-3, -1, 0, 1, 2, 5])}})
             else:
                 calls.append({"a": "prepare", "arg": {"len": rng.choice([1, 2, 4, 9]), "i": 1, "ld": rng.choice([1, 1, 2, 3])}})
@@ -366,7 +371,7 @@ def case_scenarios(rng, n):
         for _ in range(6):
             cols = rng.randrange(1, 6)
             lines = [[dy() for _ in range(rng.choice([cols, cols, cols, cols + 1, cols + 2, max(cols - 1, 1)]))] for _ in range(rng.randrange(0, 7))]
-            cases.append({"lines": lines, "rows": rng.randrange(1, 7), "cols": cols, "order": rng.choice(["row", "col"]),
+            cases.append({"lines": lines, "rows": [rng.randrange(1, 5) for _ in range(rng.choice([1, 1, 2, 3]))], "cols": cols, "order": rng.choice(["row", "col"]),
                           "data": rng.choice([0, 1, 1, 1]), "nl": rng.choice([0, 1])})
         out.append(dict(BASE, kind="vfile", via="vfile", fam="vfile", drv="c", cases=cases))
         cases = []
